@@ -280,15 +280,128 @@ theorem future_list_call (fl : FL) (answers : List Bool) :
 example : flCall { futs := [5, 6, 7], scan := none } [false, false, false, false, true] = ({ futs := [5, 7], scan := none }, some (.ret 6), 5, [5, 6, 7, 5, 6])
     ∧ flCall { futs := [], scan := none } [true] = ({ futs := [], scan := none }, some .retNone, 0, []) := ⟨rfl, rfl⟩
 
-/-! ## the exception classes `_task_wrapper` does not handle (`Model/RunnerSysX.lean`)
+/-! ## the failure classes of a unit (`Model/RunnerSysX.lean`)
 
 AUDIT NOTE (2026-09-30).  `Outcome.exc` above is an exception that `except Exception` catches and
-`Future.set_exception` accepts.  The theorems of this file were read as "failing units included" without
-that guard; on the real runner a unit that raises `SystemExit` / `KeyboardInterrupt` / `asyncio.CancelledError`
-/ any other non-`Exception`, or `StopIteration`, is NEVER delivered (witness run on the real aiorunner).
-`xrun_plain` states the exact guard, `base_exception_unit_lost` the behaviour outside it. -/
-section Unhandled
+`Future.set_exception` accepts.  Before the repair "every failure of a unit reaches its future" (`_run_unit`)
+a unit that raised `SystemExit` / `KeyboardInterrupt` / `asyncio.CancelledError` / any other non-`Exception`,
+or `StopIteration`, was NEVER delivered (witness run on the real aiorunner) and the theorems of this file held
+only under the guard `xrun_plain`.  Now `_run_unit` converts these classes in the pool process:
+`xrun_refines` — every history with any failure class is a `RunnerSys` history, so the theorems above need no
+guard — and `every_failure_delivered`.  The old behaviour is kept as the RECORD `RunnerSysX.AsIs`
+(`xrun_plain`, `base_exception_unit_lost`, `delivers_every_exception_counterexample` are about it); the tie
+accepts either behaviour as a whole and reports the record as the finding
+`C17:runner:unhandled-exception-class-never-delivered`. -/
+section FailureClasses
 open Infretis.RunnerSysX
+
+theorem xstep_is_fstep {s : Sys} {ev : XEv} {r} (h : xstep s ev = some r) : fstep s (toFEv ev) = some r := by
+  cases ev with
+  | plain e => exact h
+  | resumeFail w c e =>
+    simp only [xstep] at h
+    split at h
+    · exact h
+    · simp at h
+
+/-- **No guard any more.**  Every history of the runner's system in which units fail with ANY class of
+    exception is a history of `RunnerSys` (the failure comes back as `Outcome.exc (converted c e)`):
+    `sys_refines`, `sys_exactly_once`, `sys_no_crash`, `sys_delivery`, `stop_terminates`,
+    `stop_returns_clean` hold for it as they stand. -/
+theorem xrun_refines : ∀ (evs : List XEv) (s s' : Sys) (out : List Event), xrun s evs = some (s', out) →
+    frun s (evs.map toFEv) = some (s', out) := by
+  intro evs
+  induction evs with
+  | nil => intro s s' out h; simpa [xrun, frun] using h
+  | cons e t ih =>
+    intro s s' out h
+    simp only [xrun] at h
+    cases h1 : xstep s e with
+    | none => rw [h1] at h; simp at h
+    | some r =>
+      obtain ⟨s1, o1⟩ := r
+      rw [h1] at h
+      simp only at h
+      cases h2 : xrun s1 t with
+      | none => rw [h2] at h; simp at h
+      | some r2 =>
+        obtain ⟨s2, o2⟩ := r2
+        rw [h2] at h
+        simp only [List.map_cons, frun, xstep_is_fstep h1, ih s1 s2 o2 h2]
+        exact h
+
+theorem xrun_snoc : ∀ (evs : List XEv) (s s1 s2 : Sys) (o1 o2 : List Event) (ev : XEv),
+    xrun s evs = some (s1, o1) → xstep s1 ev = some (s2, o2) → xrun s (evs ++ [ev]) = some (s2, o1 ++ o2) := by
+  intro evs
+  induction evs with
+  | nil =>
+    intro s s1 s2 o1 o2 ev h hs
+    simp [xrun] at h
+    obtain ⟨rfl, rfl⟩ := h
+    simp [xrun, hs]
+  | cons e t ih =>
+    intro s s1 s2 o1 o2 ev h hs
+    simp only [xrun] at h
+    cases h1 : xstep s e with
+    | none => rw [h1] at h; simp at h
+    | some r =>
+      obtain ⟨sa, oa⟩ := r
+      rw [h1] at h
+      simp only at h
+      cases h2 : xrun sa t with
+      | none => rw [h2] at h; simp at h
+      | some r2 =>
+        obtain ⟨sb, ob⟩ := r2
+        rw [h2] at h
+        simp at h
+        obtain ⟨rfl, rfl⟩ := h
+        simp only [List.cons_append, xrun, h1, ih sa sb s2 ob o2 ev h2 hs]
+        simp
+
+/-- **Every failure of a unit is delivered.**  In any reachable state of the runner's system a worker
+    `w` awaits unit `u` and the unit function raises — ANY class: an ordinary `Exception`,
+    `StopIteration`, `CancelledError` / another non-`Exception`, `SystemExit` / `KeyboardInterrupt`.
+    Then the step is possible, the future of `u` — pending until now — is set, once, with an
+    exception (`converted c e`: the unit's own for an ordinary one, the `RuntimeError` of
+    `_run_unit` otherwise) by `u`'s own worker, the worker goes on (it did not die), and the whole
+    history still satisfies the exactly-once statement of the protocol. -/
+theorem every_failure_delivered (nw : Nat) (evs : List XEv) (s : Sys) (out : List Event) (w u : Nat)
+    (c : FailClass) (e : Nat) (h : xrun (RunnerSys.init nw) evs = some (s, out))
+    (hw : s.pcs[w]? = some (WPc.awaiting u)) :
+    ∃ s' out', xstep s (.resumeFail w c e) = some (s', out') ∧
+      (∀ o, (u, o) ∉ s.done) ∧ s'.done = (u, .exc (converted c e)) :: s.done ∧
+      Event.finish w u (.exc (converted c e)) ∈ out' ∧ s'.pcs[w]? ≠ some WPc.crashed ∧ s'.taskDone = s.taskDone + 1 ∧
+      ∃ p, Runner.run (Runner.init nw) (out ++ out') = some p ∧ C17Runner.ExactlyOnce (out ++ out') p ∧ p.done = s'.done := by
+  have hf := xrun_refines evs _ _ _ h
+  obtain ⟨_, hnd, _, _⟩ := (sys_no_crash nw _ s out hf).2.2 w u hw
+  have hany : s.done.any (fun p => p.1 == u) = false := by
+    rw [Bool.eq_false_iff]
+    intro ha
+    rw [List.any_eq_true] at ha
+    obtain ⟨⟨u', o⟩, hm, he⟩ := ha
+    simp at he
+    subst he
+    exact hnd o hm
+  have hstep : xstep s (.resumeFail w c e) = some
+      ({ s with pcs := s.pcs.set w (loopHead w s.stopSet s.queue).1, queue := (loopHead w s.stopSet s.queue).2.1,
+                done := (u, runUnit c e) :: s.done, taskDone := s.taskDone + 1 },
+       Event.finish w u (runUnit c e) :: (loopHead w s.stopSet s.queue).2.2) := by
+    simp [xstep, isAwaiting, hw, fstep, stepResume, hany]
+  refine ⟨_, _, hstep, hnd, rfl, by simp [runUnit], ?_, rfl, ?_⟩
+  · have hx := xrun_snoc evs _ _ _ _ _ _ h hstep
+    exact (sys_no_crash nw _ _ _ (xrun_refines _ _ _ _ hx)).1 w
+  · have hx := xrun_snoc evs _ _ _ _ _ _ h hstep
+    obtain ⟨p, hp, hE, _, _, hd, _⟩ := sys_exactly_once nw _ _ _ (xrun_refines _ _ _ _ hx)
+    exact ⟨p, hp, hE, hd⟩
+
+-- non-vacuity: two workers; unit 1's function calls sys.exit() (class `exit`), unit 2 completes; both are delivered
+example : ∃ s out, xrun (RunnerSys.init 2) [.plain (.submit 1), .plain (.submit 2), .plain (.resume 0 (.ok 0))] = some (s, out) ∧
+    s.pcs[0]? = some (WPc.awaiting 1) ∧
+    ∃ s' out', xrun s [.resumeFail 0 .exit 3, .plain (.resume 0 (.ok 5)), .plain .acEnter, .plain .acCheck, .plain .acEnter,
+      .plain .acCheck] = some (s', out') ∧ s'.delivered = [(1, .exc 999003), (2, .ok 5)] ∧ s'.fl.futs = [] := by
+  refine ⟨_, _, rfl, rfl, _, _, rfl, ?_, ?_⟩ <;> decide
+
+/-! ### RECORD: the code before the repair (`RunnerSysX.AsIs`) -/
 
 /-- unit `u` is lost: created, not queued, held by no worker, its future not done -/
 def Lost (s : Sys) (u : Nat) : Prop :=
@@ -392,50 +505,59 @@ theorem lost_fstep {s s' : Sys} {u : Nat} {e : FEv} {out} (hL : Lost s u) (h : f
     · split at h <;> (simp at h; obtain ⟨rfl, _⟩ := h; exact ⟨hc, hq, hp, hd⟩)
     · simp at h
 
-theorem lost_xstep {x x' : XSys} {u : Nat} {e : XEv} {out} (hL : Lost x.s u) (h : xstep x e = some (x', out)) :
+theorem lost_xstep {x x' : AsIs.XSys} {u : Nat} {e : XEv} {out} (hL : Lost x.s u) (h : AsIs.xstep x e = some (x', out)) :
     Lost x'.s u := by
-  cases e with
-  | plain e =>
-    simp only [xstep] at h
-    split at h
-    · simp at h
-    · split at h
+  unfold AsIs.xstep at h
+  split at h
+  · simp at h
+  · cases e with
+    | plain e =>
+      simp only at h
+      split at h
       · simp at h
       · rename_i s' o' hf
         simp at h; obtain ⟨rfl, _⟩ := h
         exact lost_fstep hL hf
-  | resumeBase w =>
-    simp only [xstep] at h
-    split at h
-    · simp at h
-    · split at h
-      · simp at h; obtain ⟨rfl, _⟩ := h
-        exact ⟨hL.1, hL.2.1, set_lost (by simp) hL.2.2.1, hL.2.2.2⟩
-      · simp at h
-  | resumeExit w =>
-    simp only [xstep] at h
-    split at h
-    · simp at h
-    · split at h
-      · simp at h; obtain ⟨rfl, _⟩ := h
-        exact ⟨hL.1, hL.2.1, set_lost (by simp) hL.2.2.1, hL.2.2.2⟩
-      · simp at h
+    | resumeFail w c e =>
+      cases c with
+      | ordinary =>
+        simp only at h
+        split at h
+        · split at h
+          · simp at h
+          · rename_i s' o' hf
+            simp at h; obtain ⟨rfl, _⟩ := h
+            exact lost_fstep hL hf
+        · simp at h
+      | stopIter => simp at h
+      | base =>
+        simp only at h
+        split at h
+        · simp at h; obtain ⟨rfl, _⟩ := h
+          exact ⟨hL.1, hL.2.1, set_lost (by simp) hL.2.2.1, hL.2.2.2⟩
+        · simp at h
+      | exit =>
+        simp only at h
+        split at h
+        · simp at h; obtain ⟨rfl, _⟩ := h
+          exact ⟨hL.1, hL.2.1, set_lost (by simp) hL.2.2.1, hL.2.2.2⟩
+        · simp at h
 
-theorem lost_xrun : ∀ (evs : List XEv) {x x' : XSys} {u : Nat} {out}, Lost x.s u → xrun x evs = some (x', out) →
+theorem lost_xrun : ∀ (evs : List XEv) {x x' : AsIs.XSys} {u : Nat} {out}, Lost x.s u → AsIs.xrun x evs = some (x', out) →
     Lost x'.s u := by
   intro evs
   induction evs with
-  | nil => intro x x' u out hL h; simp [xrun] at h; obtain ⟨rfl, _⟩ := h; exact hL
+  | nil => intro x x' u out hL h; simp [AsIs.xrun] at h; obtain ⟨rfl, _⟩ := h; exact hL
   | cons e t ih =>
     intro x x' u out hL h
-    simp only [xrun] at h
-    cases h1 : xstep x e with
+    simp only [AsIs.xrun] at h
+    cases h1 : AsIs.xstep x e with
     | none => rw [h1] at h; simp at h
     | some r =>
       obtain ⟨x1, o1⟩ := r
       rw [h1] at h
       simp only at h
-      cases h2 : xrun x1 t with
+      cases h2 : AsIs.xrun x1 t with
       | none => rw [h2] at h; simp at h
       | some r2 =>
         obtain ⟨x2, o2⟩ := r2
@@ -443,16 +565,16 @@ theorem lost_xrun : ∀ (evs : List XEv) {x x' : XSys} {u : Nat} {out}, Lost x.s
         simp at h; obtain ⟨rfl, _⟩ := h
         exact ih (lost_xstep hL h1) h2
 
-/-- **The exact guard of the runner theorems.**  A history in which every awaited unit comes back
-    with a result or with an exception that `except Exception` catches (no `resumeBase`, no
-    `resumeExit`) IS a history of `RunnerSys`: `sys_refines`, `sys_exactly_once`, `sys_no_crash`,
-    `sys_delivery`, `stop_terminates`, `stop_returns_clean` are statements about exactly these. -/
+/-- RECORD (code before the repair): **the guard the runner theorems needed.**  A history in which
+    every awaited unit comes back with a result or with an exception that `except Exception` catches
+    (only `plain` events) was a history of `RunnerSys`; outside it the theorems did not apply.
+    (For the code as it is: `xrun_refines`, without guard.) -/
 theorem xrun_plain (evs : List FEv) (s : Sys) :
-    xrun { s := s } (evs.map XEv.plain) = (frun s evs).map (fun r => ({ s := r.1 }, r.2)) := by
+    AsIs.xrun { s := s } (evs.map XEv.plain) = (frun s evs).map (fun r => ({ s := r.1 }, r.2)) := by
   induction evs generalizing s with
-  | nil => simp [xrun, frun]
+  | nil => simp [AsIs.xrun, frun]
   | cons e t ih =>
-    simp only [List.map_cons, xrun, frun, xstep, Bool.and_false, Bool.false_eq_true, ↓reduceIte]
+    simp only [List.map_cons, AsIs.xrun, frun, AsIs.xstep, Bool.and_false, Bool.false_eq_true, ↓reduceIte]
     cases h1 : fstep s e with
     | none => simp
     | some r =>
@@ -463,33 +585,32 @@ theorem xrun_plain (evs : List FEv) (s : Sys) :
       | none => simp
       | some r2 => simp
 
-example : xrun (xinit 1) ([FEv.submit 7, .resume 0 (.ok 0), .resume 0 (.exc 7)].map XEv.plain) =
+example : AsIs.xrun (AsIs.xinit 1) ([FEv.submit 7, .resume 0 (.ok 0), .resume 0 (.exc 7)].map XEv.plain) =
     (frun (RunnerSys.init 1) [.submit 7, .resume 0 (.ok 0), .resume 0 (.exc 7)]).map (fun r => ({ s := r.1 }, r.2)) :=
   xrun_plain _ _
 
-/-- **A unit that raises a non-`Exception` is never delivered.**  In any reachable state of the
-    runner's system a worker `w` awaits unit `u`; the executor hands back an exception that is not
-    an `Exception` (`resumeBase`: CancelledError, other BaseException) or `SystemExit` /
-    `KeyboardInterrupt` (`resumeExit`).  Then, whatever happens afterwards — any interleaving, any
-    number of steps — the future of `u` is never done (so `as_completed()` never returns it: the
-    scheduler waits for ever), and the worker task is gone although the stop event was never set.
-    This is the code as it is (`except Exception` in `_task_wrapper`); it contradicts "delivers its
-    result or its exception exactly once … including failing tasks" for these exception classes. -/
+/-- RECORD (code before the repair, `partial(self._task_f, md_item)`): **a unit that raised a
+    non-`Exception` was never delivered.**  In any reachable state a worker `w` awaits unit `u`; the
+    unit function raises class `base` (CancelledError, other BaseException) or `exit` (SystemExit /
+    KeyboardInterrupt).  Then, whatever happens afterwards — any interleaving, any number of steps —
+    the future of `u` is never done (`as_completed()` never returns it: the scheduler waits for ever)
+    and no worker holds `u` any more.  Repaired by `_run_unit` (`every_failure_delivered`); the tie
+    reports this behaviour as `C17:runner:unhandled-exception-class-never-delivered`. -/
 theorem base_exception_unit_lost (nw : Nat) (evs : List FEv) (s : Sys) (out : List Event) (w u : Nat)
     (h : frun (RunnerSys.init nw) evs = some (s, out)) (hw : s.pcs[w]? = some (WPc.awaiting u))
-    (e : XEv) (he : e = .resumeBase w ∨ e = .resumeExit w) (rest : List XEv) (x' : XSys) (out' : List Event)
-    (hr : xrun { s := s } (e :: rest) = some (x', out')) :
+    (ev : XEv) (he : (∃ e, ev = .resumeFail w .base e) ∨ (∃ e, ev = .resumeFail w .exit e)) (rest : List XEv)
+    (x' : AsIs.XSys) (out' : List Event) (hr : AsIs.xrun { s := s } (ev :: rest) = some (x', out')) :
     (∀ o, (u, o) ∉ x'.s.done) ∧ u ∈ x'.s.created ∧ u ∉ x'.s.queue ∧
     (∀ w' : Nat, x'.s.pcs[w']? ≠ some (WPc.awaiting u)) := by
   obtain ⟨hcr, hnd, hnq, huniq⟩ := (sys_no_crash nw evs s out h).2.2 w u hw
-  simp only [xrun] at hr
-  cases h1 : xstep { s := s } e with
+  simp only [AsIs.xrun] at hr
+  cases h1 : AsIs.xstep { s := s } ev with
   | none => rw [h1] at hr; simp at hr
   | some r =>
     obtain ⟨x1, o1⟩ := r
     rw [h1] at hr
     simp only at hr
-    cases h2 : xrun x1 rest with
+    cases h2 : AsIs.xrun x1 rest with
     | none => rw [h2] at hr; simp at hr
     | some r2 =>
       obtain ⟨x2, o2⟩ := r2
@@ -504,32 +625,34 @@ theorem base_exception_unit_lost (nw : Nat) (evs : List FEv) (s : Sys) (out : Li
           · rename_i hne
             intro hx
             exact hne (huniq w' hx).symm
-        rcases he with rfl | rfl
-        · simp only [xstep, Bool.false_eq_true, ↓reduceIte, hw] at h1
-          simp at h1; obtain ⟨rfl, _⟩ := h1
+        rcases he with ⟨e, rfl⟩ | ⟨e, rfl⟩
+        · simp [AsIs.xstep, AsIs.isResume, isAwaiting, hw] at h1
+          obtain ⟨rfl, _⟩ := h1
           exact ⟨hcr, hnq, hpc, hnd⟩
-        · simp only [xstep, Bool.false_eq_true, ↓reduceIte, hw] at h1
-          simp at h1; obtain ⟨rfl, _⟩ := h1
+        · simp [AsIs.xstep, AsIs.isResume, isAwaiting, hw] at h1
+          obtain ⟨rfl, _⟩ := h1
           exact ⟨hcr, hnq, hpc, hnd⟩
       have hL := lost_xrun rest hL1 h2
       exact ⟨hL.2.2.2, hL.1, hL.2.1, hL.2.2.1⟩
 
-/-- concrete witness (1 worker, 2 units; the first raises `SystemExit`): nothing is ever delivered,
-    the second unit is never even taken, and `stop()` — had the scheduler reached it — would poll for ever -/
+/-- RECORD (code before the repair): concrete witness (1 worker, 2 units; the first raises `SystemExit`):
+    nothing is ever delivered, the second unit is never even taken, and `stop()` — had the scheduler reached
+    it — would poll for ever; the SAME history on the code as it is delivers the failure -/
 theorem delivers_every_exception_counterexample :
-    ∃ x out, xrun (xinit 1) [.plain (.submit 1), .plain (.submit 2), .plain (.resume 0 (.ok 0)), .resumeExit 0] = some (x, out) ∧
+    (∃ x out, AsIs.xrun (AsIs.xinit 1) [.plain (.submit 1), .plain (.submit 2), .plain (.resume 0 (.ok 0)), .resumeFail 0 .exit 3] = some (x, out) ∧
       x.s.created = [1, 2] ∧ x.s.done = [] ∧ x.s.queue = [2] ∧ x.s.pcs = [.crashed] ∧ x.loopDead = true ∧
-      xstep x (.plain (.resume 0 (.ok 0))) = none ∧ x.s.stopSet = false := by
-  refine ⟨_, _, rfl, ?_⟩
-  decide
+      AsIs.xstep x (.plain (.resume 0 (.ok 0))) = none ∧ x.s.stopSet = false) ∧
+    (∃ s out, xrun (RunnerSys.init 1) [.plain (.submit 1), .plain (.submit 2), .plain (.resume 0 (.ok 0)), .resumeFail 0 .exit 3] = some (s, out) ∧
+      s.done = [(1, .exc 999003)] ∧ s.pcs = [.awaiting 2]) := by
+  refine ⟨⟨_, _, rfl, ?_⟩, ⟨_, _, rfl, ?_⟩⟩ <;> decide
 
 -- non-vacuity of `base_exception_unit_lost`: two workers, unit 1 comes back with a non-`Exception`, unit 2 completes
 example : ∃ s out x' out', frun (RunnerSys.init 2) [.submit 1, .submit 2, .resume 0 (.ok 0)] = some (s, out) ∧
     s.pcs[0]? = some (WPc.awaiting 1) ∧
-    xrun { s := s } [.resumeBase 0, .plain (.resume 1 (.ok 0)), .plain (.resume 1 (.ok 5)), .plain .acEnter, .plain .acCheck,
+    AsIs.xrun { s := s } [.resumeFail 0 .base 0, .plain (.resume 1 (.ok 0)), .plain (.resume 1 (.ok 5)), .plain .acEnter, .plain .acCheck,
       .plain .acCheck] = some (x', out') ∧ x'.s.done = [(2, .ok 5)] ∧ x'.s.delivered = [(2, .ok 5)] ∧ x'.s.fl.futs = [1] :=
   ⟨_, _, _, _, rfl, rfl, rfl, rfl, rfl, rfl⟩
 
-end Unhandled
+end FailureClasses
 
 end Infretis.C17Sys
